@@ -17,11 +17,13 @@ META = {
 }
 RULE = ("case = author value: every valid single name <= L tokens over the C13 alphabet + random lists of 1-5 persons; non-trivial = a name with a von "
         "or Jr part or >= 2 persons; distinct = distinct value")
-ASSUMPTIONS = ["the word 'and' does not occur as a name word (the C13 alphabet has none)"]
+ASSUMPTIONS = []
 MIN = {"function_inverse": (50000, 500000), "document_inverse": (3000, 60000)}
 
-ALPHA = [t for t in c13.ALPHA if t not in ("{", "}")]
-WORDS = [w for w in c13.WORDS if w not in ("x\\", "\\")] + ["\u00a0Dupont", "Jean\u00a0", "\u3000太郎", "a\u2007b", "\x0bV"]
+# 'and' / 'AND' are ordinary lower-/upper-case words of the alphabet: as a name word (tied with '~', glued to a comma, first in the
+# value) they are inside the quantifier; an earlier version assumed them away (DESIGN 8, item 16)
+ALPHA = [t for t in c13.ALPHA if t not in ("{", "}", "e", "Y")] + ["and", "AND"]
+WORDS = [w for w in c13.WORDS if w not in ("x\\", "\\")] + ["and", "And", "AND", "and", "\u00a0Dupont", "Jean\u00a0", "\u3000太郎", "a\u2007b", "\x0bV"]
 
 
 def _L(tier):
